@@ -423,10 +423,14 @@ class TFLiteSupportedOperators:
         extra = []
         if op.type not in cls.per_axis_quant_ops:
             tensors = [tens for tens in op.get_ifm_ifm2_weights_ofm() if tens]
-            for tens in tensors:
-                if tens.quantization and tens.quantization.is_per_axis():
-                    valid = False
-                    extra.append(tens.name)
+        else:
+            # only the weights (and with them the bias) are quantized per-axis, never the feature maps
+            ifm, ifm2, _, ofm = op.get_ifm_ifm2_weights_ofm()
+            tensors = [tens for tens in (ifm, ifm2, ofm) if tens]
+        for tens in tensors:
+            if tens.quantization and tens.quantization.is_per_axis():
+                valid = False
+                extra.append(tens.name)
         return valid, "The following tensor(s) have per-axis quantization parameters: " + ", ".join(extra)
 
     @classmethod
